@@ -187,6 +187,11 @@ func (this *contractExecutor) Execute(transaction *types.Transaction, header *ty
 	if common.IsProposal015() {
 		gasUsed := gasLimit - leftOverGas
 		gasFeeUsed := new(big.Int).Mul(new(big.Int).SetUint64(gasUsed), defaultGasPrice)
+		// the code may have spent the sender's balance (AUTHCALL debits the origin):
+		// never credit the fee account with more than the sender can still pay
+		if balance := accountdb.GetBalance(common.HexToAddress(transaction.Source)); balance.Cmp(gasFeeUsed) < 0 {
+			gasFeeUsed = new(big.Int).Set(balance)
+		}
 		accountdb.SubBalance(common.HexToAddress(transaction.Source), gasFeeUsed)
 		accountdb.AddBalance(common.FeeAccount, gasFeeUsed)
 		context["gasUsed"] = gasUsed
